@@ -499,6 +499,11 @@ def ev(m, env):
         decisive = m[1] == 'exists'  # exists: one True decides; forall: one False decides
         pending = []
         for x in dom:
+            # nested quantifiers over long ranges (the inner domain may be built on the outer variable) multiply: one
+            # evaluation gets a budget of body evaluations, beyond it the evaluator has no opinion
+            _budget[0] -= 1
+            if _budget[0] < 0:
+                raise Ambig('evaluation budget for quantifier bodies used up')
             try:
                 r = ev(m[4], env.bind(m[2], x))
             except (Undef, Ambig, IllConditioned) as e:
@@ -566,8 +571,13 @@ def valued(m):
     raise ValueError(m)
 
 
+STEP_BUDGET = 50000
+_budget = [STEP_BUDGET]
+
+
 def try_ev(m, env):
     """('ok', value) | ('undef', reason) | ('ambig', reason) | ('illcond', reason)"""
+    _budget[0] = STEP_BUDGET
     try:
         return ('ok', ev(m, env))
     except Undef as e:
